@@ -211,7 +211,7 @@ impl G<'_> {
             11 | 12 => format!("$({})", self.clist(depth - 1, false)),
             13 => format!("`{}`", self.simple_plain()),
             14 | 15 => format!("$(({}))", self.arith()),
-            16 => format!("$'{}'", self.rng.pick(&["a", "\\n", "\\x41", "\\101", "\\'", "\\\\", "\\u00e9", "\\cA", "a\\tb", "\\e", "\\c\\\\", "\\c?", "\\c[", "\\c@", "\\cz", "\\\"", "\\x7", "\\0", "\\U0001F600", "a\\\\'b'", "\\x41414141414", "\\xFFFFFFFFFFFFFFFFF", "\\u12345", "\\U123456789", "\\7777", "\\x", "\\u", "\\c"])),
+            16 => format!("$'{}'", self.rng.pick(&["a", "\\n", "\\x41", "\\101", "\\'", "\\\\", "\\u00e9", "\\cA", "a\\tb", "\\e", "\\c\\\\", "\\c?", "\\c[", "\\c@", "\\cz", "\\\"", "\\x7", "\\0", "\\U0001F600", "a\\\\'b'", "\\x41414141414", "\\xFFFFFFFFFFFFFFFFF", "\\u12345", "\\U123456789", "\\uFFFF", "\\U0000FFFF", "\\U00010000", "\\U00010001", "\\U0010FFFF", "\\U00110000", "\\uD800", "\\U0000DFFF", "\\x80", "\\xFF", "\\377", "\\400", "\\u0080", "\\u07FF", "\\u0800", "\\7777", "\\x", "\\u", "\\c"])),
             17 => "~".to_string(),
             18 => format!("{}*{}?", self.rng.pick(&LITS), self.rng.pick(&["[ab]", "[!a-c]", "[[:alpha:]]", ""])),
             _ => self.rng.pick(&LITS).to_string(),
@@ -235,7 +235,9 @@ impl G<'_> {
         self.rng.pick(&["1+2", "a*3", " x1 ", "(1<<2)|a", "a?b:c", "$a+1", "a=1", "1 + (2 * 3)", "$(echo 1)+1", ""]).to_string()
     }
     fn redir(&mut self, depth: u32) -> String {
-        let fd = if self.rng.chance(30) { self.rng.pick(&["0", "1", "2", "3", "9", "12"]).to_string() } else { String::new() };
+        // (descriptor numbers around the limits of the integer types: each is either a syntax error or
+        // comes back as the same number)
+        let fd = if self.rng.chance(30) { self.rng.pick(&["0", "1", "2", "3", "9", "12", "00", "010", "2147483647", "2147483648", "4294967295", "4294967296", "99999999999"]).to_string() } else { String::new() };
         match self.rng.below(10) {
             0..=4 => format!("{fd}{}{}", self.rng.pick(&["<", ">", ">>", ">|", "<>"]), self.word(depth.min(1))),
             5 if self.rng.chance(25) => format!("{fd}>>|{}", self.rng.pick(&["4", "0", "$fd", "12"])),
@@ -754,6 +756,26 @@ pub fn run(ctx: &Ctx) {
     // inputs that exposed defects earlier (fixed ones must stay silent; the known one is re-observed on every run)
     for (i, t) in ["echo ${", "echo ${#", "echo \"${", ": 3<2 '\\'$$\\", "<x a\\", "echo a\\", "\\"].iter().enumerate() {
         corpus.push((format!("regression input #{i}"), t.to_string()));
+    }
+    // boundaries of number ranges: code points around the 4-digit/8-digit escape forms and the
+    // surrogates, descriptor numbers around the limits of the integer types
+    for (i, t) in [
+        "echo $'\\uFFFF' $'\\U00010000' $'\\U00010001' $'\\U0010FFFF' $'\\U0000FFFF'",
+        "echo $'\\U00110000'",
+        "echo $'\\uD800'",
+        "echo $'\\uD7FF\\uE000' $'a\\U000100000'",
+        "echo $'\\377\\400\\xFF\\x100\\u0080\\u07FF\\u0800'",
+        "echo 2147483647>f",
+        "echo 2147483648>f",
+        "echo 4294967295>f",
+        "echo 4294967296<f",
+        "echo 18446744073709551615>>f 18446744073709551616<&1",
+        "echo 007>f 0>f 00>&1",
+    ]
+    .iter()
+    .enumerate()
+    {
+        corpus.push((format!("boundary input #{i}"), t.to_string()));
     }
     ctx.count("corpus_texts", corpus.len() as i64);
     let corpus = &corpus;
